@@ -465,3 +465,50 @@ func (sc *c19eScene) oracle(res *verifResult, level string, newBlob string, cs m
 		}
 	}
 }
+
+// ---------------------------------------------------------------- labels
+
+// a family of labels: the first is the label the client installs under again and again, the others are DIFFERENT
+// labels close to it (a prefix, another case, the same with white space added or folded) that share the agent
+type c19eLabelFamily struct {
+	class  string
+	labels []string
+}
+
+// classes of label byte strings.  A label is filePrefix + "-" + key type + "-" + user name: both ends come from the
+// configuration / the command line / the local account name, nothing restricts their bytes.
+func c19eLabelFamilies(rng interface{ Intn(int) int }) []c19eLabelFamily {
+	word := func(n int) string {
+		const letters = "abcdefghijklmnopqrstuvwxyz"
+		b := make([]byte, n)
+		for i := range b {
+			b[i] = letters[rng.Intn(len(letters))]
+		}
+		return string(b)
+	}
+	first, last := word(3+rng.Intn(4)), word(3+rng.Intn(5))
+	base := "keymaster-p256-" + first
+	ctl := []string{"\x00", "\x01", "\x07", "\x1b[31m", "\x7f", "\x1f"}
+	usp := []string{"\u00a0", "\u2003", "\u3000", "\u0085", "\u2028"}
+	rnd := make([]byte, 6+rng.Intn(20))
+	for i := range rnd {
+		rnd[i] = byte(rng.Intn(256))
+	}
+	long := "keymaster-ed25519-" + strings.Repeat(word(7)+".", 400+rng.Intn(200))
+	return []c19eLabelFamily{
+		{"plain", []string{base + last, base + last + "2"}},
+		{"space", []string{base + " " + last, base + "_" + last, base + last}},
+		{"tab", []string{"corp\tsso-rsa-" + first, "corp_sso-rsa-" + first, "corp sso-rsa-" + first}},
+		{"newline", []string{base + last + "\n", base + last, base + last + "\r\n"}},
+		{"control", []string{base + ctl[rng.Intn(len(ctl))] + last, base + last, base + "_" + last}},
+		{"unicode", []string{"keymaster-ed25519-Zo\u00eb\u5c71\u7530" + first, "keymaster-ed25519-Zoe" + first}},
+		{"unicode-space", []string{base + usp[rng.Intn(len(usp))] + last, base + " " + last, base + "_" + last}},
+		{"long", []string{long, long[:len(long)-1], long + "x"}},
+		{"empty", []string{"", " ", "_"}},
+		{"prefix", []string{base, base + last, base[:len(base)-1]}},
+		{"case", []string{base + last, strings.ToUpper(base + last), strings.Title(base + last)}},
+		{"outer-space", []string{" " + base + last + " ", base + last, base + last + " "}},
+		{"space-run", []string{base + "  \t " + last, base + " " + last, base + "_" + last}},
+		{"bytes", []string{string(rnd), string(rnd) + "\x80", string(rnd[:len(rnd)-1])}},
+	}
+}
